@@ -105,14 +105,30 @@ def run (ctx):
            why if good else "allocator returns `%s`, which is not the stored slot's index+1 - the use routine looks the packet up at id-1" % txt,
            (alloc.module, r), 'D2')
   if reuse:
-    # reuse must be under `value is None` for the same index
+    # reuse must be under a free test (`... is None`) of the very slot that is overwritten; the index may
+    # reach the store through copies (a helper's result), every origin must have passed the test
     for k, s, n in reuse:
-      facts = q.fact_strs(g, n)
-      good = any(f.endswith('is None') for f in facts)
+      idx = None
+      for t in (s.targets if isinstance(s, ast.Assign) else []):
+        if isinstance(t, ast.Subscript): idx = t.slice
+      good = idx is not None and n is not None and _free_index(g, n, idx, n)
       ctx.ob('R-DOM', alloc, "slot reuse only when the slot is free", good,
-             "slot overwrite is dominated by a `is None` test" if good else
-             "allocator overwrites a slot without testing that it is free (facts: %s)" % facts,
+             "every value the slot index can take was selected under a `is None` test of that slot" if good else
+             "allocator overwrites a slot without testing that it is free (facts: %s)" % q.fact_strs(g, n),
              (alloc.module, s), 'D2')
+    # refusing a buffer (returning None) only after the scan: a full list whose slots have been freed must be reused
+    scan = [h for (st, h, a) in g.loop_nodes if any(isinstance(x, ast.Attribute) and x.attr == BUF for x in ast.walk(st.iter if isinstance(st, (ast.For, ast.AsyncFor)) else st.test))]
+    scan += [h for (st, h, a) in g.loop_nodes if isinstance(st, ast.While) and any(isinstance(x, ast.Attribute) and x.attr == BUF for b in st.body for x in ast.walk(b))]
+    for r in q.returns_of(alloc.node):
+      v = r.value
+      if not (v is None or (isinstance(v, ast.Constant) and v.value is None)): continue
+      rn = q.enclosing_stmt_node(g, r)
+      good = rn is not None and any(g.dominates(h, rn) for h in scan)
+      ctx.ob('R-ORDER', alloc, "a buffer is refused only after the free-slot scan", good,
+             "`return None` is reached only after the scan" if good else
+             "the allocator gives up (returns None) on a path that has not scanned for a free slot: once max_buffers packets "
+             "have been outstanding, freed slots are never reused and misses carry the whole frame although buffers are free",
+             (alloc.module, r), 'D2')
     # growth only after the scan: the loop's for-node dominates the growth node
     loops = [h for (s, h, a) in g.loop_nodes]
     for k, s, n in grow:
@@ -252,6 +268,40 @@ def run (ctx):
           why = "total_len expression `%s` not understood" % norm(tl)
         ctx.ob('R-DEF', spi, "total_len reflects the untruncated frame", good,
                why if good is not False else why + ": a buffered miss reports the truncated length", (spi.module, c), 'D4')
+
+def _free_index (g, node, idx, store, depth=0):
+  """can `idx` at `node` only denote a slot that tested free (is None)?"""
+  facts = q.guard_facts(g, node)
+  it = norm(idx)
+  for l, o, r, b in facts:
+    if o == 'is' and isinstance(r, ast.Constant) and r.value is None:
+      if _is_buf_slot(l) and norm(l.slice) == it: return True
+      # enumerate(self._packet_buffer): the element variable of the iteration whose index is idx
+      if isinstance(l, ast.Name) and isinstance(idx, ast.Name):
+        for st, h, a in g.loop_nodes:
+          if isinstance(st, ast.For) and isinstance(st.iter, ast.Call) and call_name(st.iter) == 'enumerate' and st.iter.args \
+             and isinstance(st.iter.args[0], ast.Attribute) and st.iter.args[0].attr == BUF and isinstance(st.target, ast.Tuple) and len(st.target.elts) == 2:
+            i, v = st.target.elts
+            if isinstance(i, ast.Name) and i.id == idx.id and isinstance(v, ast.Name) and v.id == l.id and h in [x for x in g.nodes if g.dominates(x, node)]:
+              return True
+  if not isinstance(idx, ast.Name) or depth > 5: return False
+  notnone = any(isinstance(l, ast.Name) and l.id == idx.id and o == 'is not' and isinstance(r, ast.Constant) and r.value is None
+                for l, o, r, b in q.guard_facts(g, store)) if depth == 0 else False
+  IN, defn = q.reaching_defs(g, idx.id)
+  if not IN[node]: return False
+  for d in IN[node]:
+    if d is g.entry: return False
+    tt, v, kind = defn[d]
+    if kind == 'assign' and isinstance(v, ast.Constant) and v.value is None:
+      if notnone or depth > 0 and _guarded_notnone(g, store, idx.id): continue
+      return False
+    if kind == 'assign' and isinstance(v, ast.Name):
+      if not _free_index(g, d, v, store, depth + 1): return False
+      continue
+    return False
+  return True
+
+def _guarded_notnone (g, store, name): return False
 
 def _is_len_of_buf (e):
   return isinstance(e, ast.Call) and call_name(e) == 'len' and len(e.args) == 1 and \
